@@ -411,6 +411,9 @@ func (c *c08state) answers(mgr *waddrmgr.Manager, db walletdb.DB, full, walkAddr
 		add("SyncedTo", qa{"", "synced-to.height", fmt.Sprint(st.Height)},
 			qa{"", "synced-to.hash", fmt.Sprintf("%x", st.Hash[:])},
 			qa{"", "synced-to.timestamp", fmt.Sprint(st.Timestamp.Unix())})
+		add("Birthday", qa{"", "birthday", fmt.Sprint(mgr.Birthday().Unix())})
+		bb, verified, err := mgr.BirthdayBlock(ns)
+		add("BirthdayBlock", qa{"", "birthday-block", errOr(err, fmt.Sprintf("%d %x %d %v", bb.Height, bb.Hash[:], bb.Timestamp.Unix(), verified))})
 		for h := r.m.Sync.Height - 3; h <= r.m.Sync.Height+3; h++ {
 			if h < 0 {
 				continue
